@@ -251,6 +251,16 @@ def c12_search(rng, n):
                                       method=p['method'], dt=dt, dt_min=dt_min)
                 if not torch.equal(ys, ys3):
                     bad = 'list ts and tensor ts give different results'
+                # ... and a ts tensor of ANOTHER floating dtype than y0 (dyadic times, exact in float32): the result keeps y0's dtype
+                if bad is None and rng.random() < 0.4:
+                    tsd = [0.25 * k for k in range(rng.randrange(2, 5))]
+                    ys4 = torchsde.sdeint(sde, y0, torch.tensor(tsd, dtype=torch.float32), bm=make_bm(p, tsd[0], tsd[-1]),
+                                          method=p['method'], dt=0.125)
+                    st['dtype_checks'] = st.get('dtype_checks', 0) + 1
+                    if ys4.dtype != y0.dtype or tuple(ys4.shape) != (len(tsd), p['batch'], p['d']):
+                        bad = f'float32 ts tensor with {y0.dtype} y0: result has dtype {ys4.dtype}, shape {tuple(ys4.shape)}'
+                    elif not torch.equal(ys4[0], y0):
+                        bad = 'float32 ts tensor: ys[0] != y0'
         except Exception as e:  # noqa
             bad = f'{type(e).__name__}: {e}'
         st['evals'] += 1
@@ -271,27 +281,41 @@ def c13_search(rng, n):
         t0 = rng.choice([0.0, 0.5])
         cuts = sorted(rng.sample(range(1, nsteps), min(nsteps - 1, rng.randrange(1, 5))))
         grid = [t0 + k * dt for k in [0] + cuts + [nsteps]]
-        p.update(dt=dt, grid=grid)
+        # the horizon need not be a multiple of dt: a last step that is clipped (by a lot, or by less than dt_min) is still a step
+        over = rng.choice([0.0, 0.0, 3e-6, 0.37 * dt])
+        grid[-1] += over
+        kw = {} if rng.random() < 0.6 else dict(dt_min=rng.choice([0.4 * dt, 1e-3]))  # dt_min is documented for adaptive stepping only
+        p.update(dt=dt, grid=grid, horizon_over=over, **kw)
         bad = None
         try:
             with torch.no_grad():
                 # the restart points are taken from the grid the one-shot solve ACTUALLY walks (for a non-dyadic dt the
                 # accumulated `curr_t + dt` is not `t0 + k dt` in floats): record it first
                 rec = RecordingBM(make_bm(p, grid[0], grid[-1]))
-                torchsde.sdeint(sde, y0, [grid[0], grid[-1]], bm=rec, method=p['method'], dt=dt)
+                torchsde.sdeint(sde, y0, [grid[0], grid[-1]], bm=rec, method=p['method'], dt=dt, **kw)
                 walked = [rec.log[0][0]] + [b for a, b in rec.log]
                 walked = sorted(set(walked))
+                if rng.random() < 0.5:
+                    # ... or from the step grid as C12 defines it (float accumulation of dt from ts[0], the last step clipped),
+                    # computed here and not read off the code under test
+                    acc, cur = [float(grid[0])], float(grid[0])
+                    while cur + dt < float(grid[-1]):
+                        cur = cur + dt
+                        acc.append(cur)
+                    walked = acc + [float(grid[-1])]
                 if len(walked) >= 3:
-                    inner = sorted(rng.sample(walked[1:-1], min(len(walked) - 2, len(cuts))))
-                    grid = [walked[0]] + inner + [walked[-1]]
+                    inner = set(rng.sample(walked[1:-1], min(len(walked) - 2, len(cuts))))
+                    if rng.random() < 0.5:
+                        inner.add(walked[-2])  # the last grid point before the horizon (possibly a few ulps / less than dt_min before it)
+                    grid = [walked[0]] + sorted(inner) + [walked[-1]]
                     p.update(grid=grid)
                 bm = make_bm(p, grid[0], grid[-1])
                 one, one_extra = torchsde.sdeint(sde, y0, [grid[0], grid[-1]], bm=bm, method=p['method'], dt=dt,
-                                                 extra=True)
+                                                 extra=True, **kw)
                 y, extra = y0, None
                 for a, b in zip(grid[:-1], grid[1:]):
                     ys, extra = torchsde.sdeint(sde, y, [a, b], bm=bm, method=p['method'], dt=dt, extra=True,
-                                                extra_solver_state=extra if extra else None)
+                                                extra_solver_state=extra if extra else None, **kw)
                     y = ys[-1]
                     st['chunks'] += 1
                 if not torch.equal(y, one[-1]):
@@ -669,8 +693,44 @@ def c20_case(method, sde_type, noise, d, m, batch, seed, dt, row, kind, poison=N
     return ok, dfc
 
 
+class RowMultSDE(nn.Module):
+    """row-wise diagonal SDE with MULTIPLICATIVE noise and a prior drift (for logqp): the size of the diffusion differs from row to row
+    by many orders of magnitude when the rows of y0 do"""
+    noise_type = 'diagonal'
+
+    def __init__(self, sde_type, d, seed=0):
+        super().__init__()
+        g = torch.Generator().manual_seed(seed)
+        self.sde_type, self.d = sde_type, d
+        self.a = 0.3 * torch.randn(d, generator=g, dtype=torch.float64)
+        self.b = 0.3 + 0.2 * torch.rand(d, generator=g, dtype=torch.float64)
+
+    def f(self, t, y): return self.a * y
+    def g(self, t, y): return self.b * y
+    def h(self, t, y): return 0.5 * self.a * y
+
+
+def c20_logqp_case(method, sde_type, d, batch, seed, dt, row, scales):
+    """logqp=True: the state AND the log-ratio of row `row` must not notice the other rows (here: their magnitude)"""
+    sde = RowMultSDE(sde_type, d, seed)
+    g = torch.Generator().manual_seed(seed)
+    base = 0.5 + torch.rand(batch, d, generator=g, dtype=torch.float64)
+    outs = []
+    for sc in scales:
+        y0 = base * sc
+        y0[row] = base[row] * 1e-5
+        bm = BrownianInterval(t0=0.0, t1=0.5, size=(batch, d + 1), dtype=torch.float64, entropy=seed,
+                              levy_area_approximation=LEVY.get(method, 'none'))
+        with torch.no_grad():
+            ys, lr = torchsde.sdeint(sde, y0, [0.0, 0.25, 0.5], bm=bm, method=method, dt=dt, logqp=True)
+        outs.append((ys[:, row].clone(), lr[:, row].clone()))
+    ok = torch.equal(outs[0][0], outs[1][0]) and torch.equal(outs[0][1], outs[1][1])
+    dfc = max(float((outs[0][0] - outs[1][0]).abs().max()), float((outs[0][1] - outs[1][1]).abs().max()))
+    return ok, dfc
+
+
 def c20_search(rng, n):
-    fails, st = [], dict(evals=0, perturb=0, permute=0, by_method={}, worst=0.0)
+    fails, st = [], dict(evals=0, perturb=0, permute=0, logqp=0, by_method={}, worst=0.0)
     for _ in range(n):
         method, sde_type, noise = random_solver(rng)
         cfg = dict(method=method, sde_type=sde_type, noise=noise, d=rng.choice([1, 2, 3]), m=rng.choice([1, 2, 3]),
@@ -681,8 +741,14 @@ def c20_search(rng, n):
             cfg['poison'] = rng.choice([float('nan'), float('inf'), -float('inf'), 1e300])
         if method == 'milstein' and noise != 'additive' and rng.random() < 0.5:
             cfg['grad_free'] = True
+        if noise == 'diagonal' and method in ('euler', 'milstein', 'srk', 'midpoint', 'heun', 'euler_heun') and rng.random() < 0.6:
+            cfg = dict(method=method, sde_type=sde_type, d=cfg['d'], batch=max(2, cfg['batch']), seed=cfg['seed'], dt=cfg['dt'],
+                       row=cfg['row'] % max(2, cfg['batch']), scales=[1.0, rng.choice([1e3, 1e6])], kind='logqp')
         try:
-            ok, dfc = c20_case(**cfg)
+            if cfg['kind'] == 'logqp':
+                ok, dfc = c20_logqp_case(**{k: v for k, v in cfg.items() if k != 'kind'})
+            else:
+                ok, dfc = c20_case(**cfg)
             bad = None if ok else f"row {cfg['row']} changed by {dfc} ({cfg['kind']})"
         except Exception as e:  # noqa
             bad, dfc = f'{type(e).__name__}: {e}', 0.0
